@@ -10,10 +10,12 @@ package c12
 
 import (
 	"context"
+	"encoding/hex"
 	"fmt"
 	"math/rand/v2"
 	"sort"
 	"strings"
+	"sync"
 	"sync/atomic"
 	"testing"
 
@@ -70,7 +72,7 @@ func TestCheck(t *testing.T) {
 	hits0 := hashHitCounters()
 	cust0 := promtest.ToFloat64(metrics.FilterCustomCacheLookupsHits)
 
-	sequentialPhase(r, s)
+	sequentialPhase(r)
 	straddlePhase(r, s)
 	concurrentPhase(r, s)
 
@@ -81,7 +83,7 @@ func TestCheck(t *testing.T) {
 	r.Require("seq_queries", 1000)
 	r.Require("seq_key_asked_before_by_other_requester", 200)
 	r.Require("seq_key_asked_before_last_refresh", 100)
-	r.Require("seq_cached_twin_cache_items_seen", 1000)
+	r.Require("seq_queries_with_populated_caches_in_cached_twin", 1000)
 	r.Require("seq_storage_refreshes", 50)
 	r.Require("seq_hash_refreshes", 50)
 	r.Require("seq_custom_updates", 50)
@@ -90,7 +92,7 @@ func TestCheck(t *testing.T) {
 	r.Require("hashprefix_result_cache_hits", 200)
 	r.Require("custom_filter_cache_hits", 200)
 	r.Require("hook_hits_total", 100)
-	r.Require("straddle_reader_parked_across_refresh", 20)
+	r.Require("straddle_interleavings_resolved", 20)
 	r.Require("conc_histories_checked", 12)
 	r.Require("conc_reads_overlapping_a_refresh", 50)
 	r.Require("conc_reads_after_a_refresh", 200)
@@ -279,11 +281,30 @@ func (h *seqHist) randQuery() query {
 	return qu
 }
 
-func sequentialPhase(r *vkit.Run, s *srv) {
+func sequentialPhase(r *vkit.Run) {
 	n := r.N(60, 600)
-	for i := 0; i < n; i++ {
-		runSeqHistory(r, s, i)
+	// Histories are independent (own content server, own storages, PRNG
+	// stream by history index), so several run side by side; most of their
+	// wall time is the fsync of the refreshed cache files.
+	const workers = 4
+	idxs := make(chan int)
+	var wg sync.WaitGroup
+	for w := 0; w < workers; w++ {
+		wg.Add(1)
+		go func() {
+			defer wg.Done()
+			s := newSrv()
+			defer s.close()
+			for i := range idxs {
+				runSeqHistory(r, s, i)
+			}
+		}()
 	}
+	for i := 0; i < n; i++ {
+		idxs <- i
+	}
+	close(idxs)
+	wg.Wait()
 }
 
 func runSeqHistory(r *vkit.Run, s *srv, idx int) {
@@ -333,17 +354,20 @@ func runSeqHistory(r *vkit.Run, s *srv, idx int) {
 		}
 		h.hot = append(h.hot, qu)
 	}
+	// one host whose verdict depends on the question type
+	tl := label(ruleListIDs[h.rng.IntN(2)])
+	h.hot = append(h.hot, query{Host: "typed." + tl + ".test", QType: dns.TypeA}, query{Host: "typed." + tl + ".test", QType: dns.TypeAAAA})
 	steps := 80
 	for st := 0; st < steps && !h.aborted; st++ {
 		switch w := h.rng.IntN(100); {
-		case w < 66:
+		case w < 72:
 			q := h.reqs[h.rng.IntN(len(h.reqs))]
 			h.evalQuery("query", q, q.customVer(), h.randQuery())
-		case w < 73:
+		case w < 77:
 			h.storageRefresh(h.rng.IntN(100) < 15)
-		case w < 81:
+		case w < 83:
 			h.hashRefresh()
-		case w < 89:
+		case w < 91:
 			h.customUpdate()
 		default:
 			h.outdatedSnapshotQuery()
@@ -399,7 +423,7 @@ func (h *seqHist) evalQuery(kind string, q *requester, ver int, qu query) {
 	r := h.r
 	id := uint16(h.rng.IntN(65536))
 	if n := h.cached.mgr.items(); n > 0 {
-		r.Bucket("seq_cached_twin_cache_items_seen", int64(n))
+		r.Bucket("seq_queries_with_populated_caches_in_cached_twin", 1)
 	}
 	oc := ask(h.cached, q, ver, qu, id)
 	h.uncached.mgr.clearAll()
@@ -489,6 +513,10 @@ func (h *seqHist) evalQuery(kind string, q *requester, ver int, qu query) {
 	case oc.verdictEq(ou) && isHashList(oc.List) && popBy != "":
 		same := strings.HasSuffix(popBy, "{"+q.Ident+"}")
 		switch {
+		case oc.Kind == "modresp" && rcodeOnly(oc, ou):
+			h.violate("hashprefix:result-cache-hit-resets-rcode-to-noerror",
+				"a blocked response with a non-zero RCODE (NXDOMAIN / REFUSED blocking mode, HTTPS question) comes back from the hash-prefix result cache with RCODE NOERROR and is otherwise identical",
+				q, ver, qu, oc, ou, of, extra)
 		case same:
 			h.violate("hashprefix:result-cache-hit-changes-response-for-identical-requester",
 				"a hash-prefix result served from the result cache differs from the freshly built one although the entry was written for a requester with identical constructor settings and request shape",
@@ -513,6 +541,30 @@ func (h *seqHist) evalQuery(kind string, q *requester, ver int, qu query) {
 			h.violate("transparency:"+fam+":verdict-differs", "verdict (kind / list / rule) differs between the cached storage and its cache-free twin", q, ver, qu, oc, ou, of, extra)
 		}
 	}
+}
+
+// rcodeOnly reports whether the two filtered messages differ in the RCODE
+// only, the cached one being NOERROR.
+func rcodeOnly(cached, fresh obs) bool {
+	unpack := func(o obs) *dns.Msg {
+		b, err := hex.DecodeString(o.Wire)
+		if err != nil {
+			return nil
+		}
+		m := &dns.Msg{}
+		if m.Unpack(b) != nil {
+			return nil
+		}
+		return m
+	}
+	mc, mf := unpack(cached), unpack(fresh)
+	if mc == nil || mf == nil || mc.Rcode != dns.RcodeSuccess || mf.Rcode == dns.RcodeSuccess {
+		return false
+	}
+	mf.Rcode = dns.RcodeSuccess
+	wc, _ := packNorm(mc)
+	wf, _ := packNorm(mf)
+	return wc == wf
 }
 
 func pick(a, b string) string {
@@ -592,20 +644,20 @@ func (h *seqHist) probe(comp string, old, nw int, hostOf func(j int) []string, w
 		lo, hi = hi, lo
 	}
 	js := []int{lo + 1, hi}
-	if hi-lo > 2 {
-		js = append(js, lo+1+h.rng.IntN(hi-lo))
-	}
 	if lo+1 == hi {
 		js = js[:1]
 	}
 	for _, j := range js {
-		for hi, host := range hostOf(j) {
+		hosts := hostOf(j)
+		// the first host is the version probe proper, the others rotate
+		hosts = append(hosts[:1:1], hosts[1:][h.rng.IntN(len(hosts)-1):][:1]...)
+		for n, host := range hosts {
 			q := who[h.rng.IntN(len(who))]
-			h.evalQuery("probe", q, q.customVer(), query{Host: host, QType: dns.TypeA})
-			if hi == 0 {
-				q2 := who[h.rng.IntN(len(who))]
-				h.evalQuery("probe", q2, q2.customVer(), query{Host: host, QType: []uint16{dns.TypeAAAA, dns.TypeHTTPS, dns.TypeA}[h.rng.IntN(3)]})
+			qt := uint16(dns.TypeA)
+			if n > 0 {
+				qt = []uint16{dns.TypeAAAA, dns.TypeHTTPS, dns.TypeA}[h.rng.IntN(3)]
 			}
+			h.evalQuery("probe", q, q.customVer(), query{Host: host, QType: qt})
 		}
 	}
 }
@@ -623,17 +675,23 @@ func (h *seqHist) checkFetched(before map[string]int, paths []string, per int) b
 	return true
 }
 
-func (h *seqHist) rebuildFresh() bool {
-	uo := h.opt
-	uo.ResultCache = false
-	f, err := newEnv(h.s, "fresh", uo)
+// rebuildFresh replaces the reference storage by one constructed from scratch
+// from the currently served content: a new hash-prefix filter for the hash
+// list that changed (hashKind), and in every case a new storage object (which
+// downloads everything again if the storage content changed).
+func (h *seqHist) rebuildFresh(hashKind string, storageChanged bool) bool {
+	var err error
+	if hashKind != "" {
+		err = h.fresh.buildHash(hashKind)
+	}
+	if err == nil {
+		err = h.fresh.buildStorage(storageChanged)
+	}
 	if err != nil {
 		h.r.Inconclusive(fmt.Sprintf("seq history %d: cannot rebuild reference storage: %v", h.idx, err))
 		h.aborted = true
 		return false
 	}
-	h.fresh.close()
-	h.fresh = f
 	return true
 }
 
@@ -684,7 +742,7 @@ func (h *seqHist) storageRefresh(noChange bool) {
 			paths = append(paths, "/rl/"+id)
 		}
 	}
-	if !h.checkFetched(before, paths, 2) || !h.rebuildFresh() {
+	if !h.checkFetched(before, paths, 2) || !h.rebuildFresh("", true) {
 		return
 	}
 	h.epoch++
@@ -703,6 +761,13 @@ func (h *seqHist) storageRefresh(noChange bool) {
 				q := who[rng.IntN(len(who))]
 				h.evalQuery("probe", q, q.customVer(), query{Host: "rw." + l + ".test", QType: dns.TypeA})
 				h.evalQuery("probe", q, q.customVer(), query{Host: "rwc." + l + ".test", QType: dns.TypeA})
+				qts := []uint16{dns.TypeAAAA, dns.TypeA}
+				if rng.IntN(2) == 0 {
+					qts = []uint16{dns.TypeA, dns.TypeAAAA}
+				}
+				for _, qt := range qts {
+					h.evalQuery("probe", q, q.customVer(), query{Host: "typed." + l + ".test", QType: qt})
+				}
 				j := h.c.RL[id]
 				if old.RL[id] > j {
 					j = old.RL[id]
@@ -714,7 +779,7 @@ func (h *seqHist) storageRefresh(noChange bool) {
 	for _, id := range svcIDs {
 		if old.Svc[id] != h.c.Svc[id] {
 			l := label(id)
-			h.probe(id, old.Svc[id], h.c.Svc[id], func(j int) []string { return []string{fmt.Sprintf("s%d.%s.test", j, l)} }, h.enabledFor(id))
+			h.probe(id, old.Svc[id], h.c.Svc[id], func(j int) []string { return []string{fmt.Sprintf("s%d.%s.test", j, l), "fixed." + l + ".test"} }, h.enabledFor(id))
 		}
 	}
 	if old.SSGen != h.c.SSGen {
@@ -740,7 +805,7 @@ func (h *seqHist) hashRefresh() {
 			return
 		}
 	}
-	if !h.checkFetched(before, []string{"/hp/" + k}, 2) || !h.rebuildFresh() {
+	if !h.checkFetched(before, []string{"/hp/" + k}, 2) || !h.rebuildFresh(k, false) {
 		return
 	}
 	h.epoch++
@@ -776,6 +841,10 @@ func (h *seqHist) customUpdate() {
 		if x.Profile == p {
 			who = append(who, x)
 		}
+	}
+	// a custom rule with a $client modifier, asked by every device of the profile
+	for _, x := range who {
+		h.evalQuery("probe", x, x.customVer(), query{Host: fmt.Sprintf("cdev.p%d.test", p.Idx), QType: dns.TypeA})
 	}
 	h.probe("custom", old, p.Ver, func(j int) []string {
 		return []string{fmt.Sprintf("c%d.p%d.test", j, p.Idx), fmt.Sprintf("crw.p%d.test", p.Idx), "h2.vlb.test"}
